@@ -1345,7 +1345,7 @@ def i_SMSW(i, fmap):
     logger.verbose("%s semantic is not defined" % i.mnemonic)
     fmap[eip] = fmap[eip] + i.length
     dst = i.operands[0]
-    fmap[dst] = top(16)
+    fmap[dst] = top(dst.size)
 
 
 # result of a bit scan/count: a constant if the source is one, unknown
